@@ -169,7 +169,7 @@ class Scratch:
                     break
         return ",".join(parts), used
 
-    def run(self, crate, harnesses, jobs=8, harness_timeout=300, extra_args=(), mem_gb=14, exact=True,
+    def run(self, crate, harnesses, jobs=8, harness_timeout=300, extra_args=(), mem_gb=10, exact=True,
             unwind_rules=None, probes=None):
         """Run the given harnesses (full names) of one crate in one cargo-kani
         invocation.  Returns {harness: HarnessResult}."""
